@@ -38,10 +38,24 @@ func SetGate(f GateFunc) {
 	gate.Store(&f)
 }
 
+// Converters let packages turn values of unexported types into loggable ones
+// before they reach the sink (registered from verif_export.go files).
+var converters []func(v any) (any, bool)
+
+func RegisterConverter(c func(v any) (any, bool)) { converters = append(converters, c) }
+
 func Event(name string, kv ...any) {
 	f := sink.Load()
 	if f == nil {
 		return
+	}
+	for i := 1; i < len(kv); i += 2 {
+		for _, c := range converters {
+			if nv, ok := c(kv[i]); ok {
+				kv[i] = nv
+				break
+			}
+		}
 	}
 	(*f)(name, kv)
 }
@@ -53,3 +67,6 @@ func Yield(point string, key any) {
 	}
 	(*f)(point, key)
 }
+
+// PtrID marks a value that the sink must identify by pointer identity.
+type PtrID struct{ P any }
